@@ -545,7 +545,7 @@ func verifC09(c *drv.Ctx) {
 		"d: every script of c that ends in S or D, scanner timeouts 5 s, context cancelled before the call and when the server reaches each step up to the stall (30 ms into the stall). " +
 		"Oracle from the server's own log: record required iff accepted, first two bytes sent = 05 00, no reset/close-with-unread-data and no cancellation before the return (then either); forbidden otherwise; " +
 		"record = probed ip/port; bytes received = 05 01 00; duration <= connect + 3 x data + 2 s, <= 2 s after cancel; hard cap 10 s = hang. " +
-		"A failing case is re-run once (a timed-out positive case with 3 s timeouts) and reported only if it fails again: machine load cannot raise an alarm. " +
+		"A failing case is re-run once (decision failures with 3 s timeouts, timing failures unchanged) and reported only if it fails again: machine load cannot raise an alarm. " +
 		"non-trivial = every case (each is a distinct server behaviour); quick and thorough enumerate the same space"
 	var cases []*c09case
 	idx := 0
@@ -607,7 +607,8 @@ func verifC09(c *drv.Ctx) {
 					// confirmation run: only a reproducible failure is reported
 					retried = true
 					first := o
-					o = c09run(k, strings.HasPrefix(first.Fail, "no-record-for-0500") && first.timeout)
+					timeClass := strings.HasPrefix(first.Fail, "hang:") || strings.HasPrefix(first.Fail, "slow:") || strings.HasPrefix(first.Fail, "cancel-not-prompt:")
+					o = c09run(k, !timeClass) // decision failures are confirmed with 3 s timeouts, so that load cannot mask or fake them
 					if o.infra == "" && o.Fail == "" {
 						mu.Lock()
 						c.Add("failures_not_reproduced_on_rerun", 1)
